@@ -340,9 +340,10 @@ def run_spec(spec):
     out["stats"] = E.stats
     if out["reach"] == 0 and out["result"] == "holds":
         out.update(result="inconclusive", why="vacuous")
-    if out["result"] == "holds":
+    if out["result"] in ("holds", "inconclusive"):
         U.validate_native(E, paths, LV2, conc, out, nmax=1)
-    if out["result"] == "holds" and names:
+    if out["result"] in ("holds", "inconclusive") and names:
+        # (native runs: they do not depend on whether the symbolic run reached a verdict)
         # the same instantiation with the values handed over as other Python / NumPy types (native runs)
         nl = len(lv.vars)
         leaf0 = [(0.5 + 0.75 * i if k == "float" else 2 + i) for i, (_, k, _) in enumerate(lv.vars)]
@@ -364,13 +365,15 @@ def run_spec(spec):
 
 
 VALUE_KINDS = ["python float", "python int", "numpy int64", "numpy float32", "numpy float64",
-               "arrays: fortran order", "arrays: transposed view", "arrays: reversed view", "arrays: tuples", "arrays: int64 dtype", "arrays: float32 dtype"]
+               "arrays: fortran order", "arrays: transposed view", "arrays: reversed view", "arrays: tuples", "arrays: int64 dtype", "arrays: float32 dtype",
+               "python complex", "numpy complex128", "arrays: complex128 dtype"]
 
 
 def _as_kind(vals, flat, kind):
     """the same parameter values handed over as other Python / NumPy types (what the caller may pass is not only floats and lists)"""
     import fractions
     conv = {"python int": int, "numpy int64": np.int64, "numpy float32": np.float32, "numpy float64": np.float64,
+            "python complex": complex, "numpy complex128": np.complex128,
             "fraction": lambda x: fractions.Fraction(x).limit_denominator(64)}.get(kind)
     out = {}
     for n, v in vals.items():
@@ -388,6 +391,8 @@ def _as_kind(vals, flat, kind):
                 v = a.astype(np.int64)
             elif kind == "arrays: float32 dtype":
                 v = a.astype(np.float32)
+            elif kind == "arrays: complex128 dtype":
+                v = a.astype(np.complex128)
             elif conv and kind.startswith("numpy"):
                 v = [[conv(x) for x in r] for r in v]
         elif conv:
@@ -403,7 +408,8 @@ def concrete_check(spec, leafvals, parvals, w=None, kind="python float"):
     g = gen(spec, lv)
     text = g["text"]
     integral = kind in ("python int", "numpy int64", "arrays: int64 dtype")
-    vals, flat = build_values(text, False, [(int(x) if integral else float(x)) for x in parvals])
+    cplx = "complex" in kind
+    vals, flat = build_values(text, False, [(int(x) if integral else (complex(x, 0.5 * x + 0.25) if cplx else float(x))) for x in parvals])
     toks = w["lang"].real_tokens_pos(text)
     T.PyAlg.overflow = False
     T.PyAlg.fscale = 0.0
